@@ -301,6 +301,10 @@ impl<const N: u32> PxE1<{ N }> {
         }
 
         let i_z = convert_px1bits_to_u32(ui_a);
+        if i_z > 0x_7FFF_FFFF {
+            // beyond the range of i32: saturate
+            return if sign { i32::min_value() } else { i32::max_value() };
+        }
         u32_with_sign(i_z, sign) as i32
     }
 
